@@ -459,8 +459,16 @@ func NewNibiruApp(
 		}
 	}
 
-	if err := app.Load(loadLatest); err != nil {
+	// runtime.App.Load installs runtime.App's own BeginBlocker; NibiruApp.BeginBlocker (own gas meter for the module
+	// BeginBlockers) must be installed after it and before the BaseApp is sealed by LoadLatestVersion.
+	if err := app.Load(false); err != nil {
 		panic(err)
+	}
+	app.SetBeginBlocker(app.BeginBlocker)
+	if loadLatest {
+		if err := app.LoadLatestVersion(); err != nil {
+			panic(err)
+		}
 	}
 
 	if loadLatest {
